@@ -173,6 +173,12 @@ class Check:
         if core_unknown:
             print('FAIL-CLOSED: core obligations undecided: ' + ', '.join(o['name'] for o in core_unknown[:10]))
             sys.exit(2)
+        core_violated = [o for o in violated if o['core']]
+        if core_violated and not self.known_hits:
+            # the solver refuted a core obligation but no replay confirmed it (otherwise a violation would have been reported above):
+            # neither a pass nor a reproduced violation
+            print('FAIL-CLOSED: core obligations refuted by the solver without a confirmed replay: ' + ', '.join(o['name'] for o in core_violated[:10]))
+            sys.exit(2)
         sys.exit(0)
 
 def demangle_all(names):
